@@ -304,6 +304,7 @@ int json_pointer_getf(struct json_object *obj, struct json_object **res, const c
 	{
 		if (res)
 			*res = obj;
+		rc = 0;
 		goto out;
 	}
 
@@ -398,6 +399,7 @@ int json_pointer_setf(struct json_object **obj, struct json_object *value, const
 	{
 		json_object_put(*obj);
 		*obj = value;
+		rc = 0;
 		goto out;
 	}
 
